@@ -17,10 +17,6 @@ def matchTemplate : List (Option String) → List String → Option (List String
   | none :: ts, b :: bs => (matchTemplate ts bs).map (b :: ·)
   | _, _ => none
 
-/-- build a template from a space-separated string where `?` is a hole -/
-def tmpl (s : String) : List (Option String) :=
-  (s.splitOn " ").map fun w => if w == "?" then none else some w
-
 def matchOpOfConst : String → Option MatchOp
   | "MatchEqual" => some .equal
   | "MatchNotEqual" => some .notEqual
@@ -37,36 +33,89 @@ def collOpOfConst : String → Option CollOp
   | "CollectionOpAll" => some .all
   | _ => none
 
-def tBinary := tmpl "return & BinaryExpression { Operator : ? , Left : ? . ( Expression ) , Right : ? . ( Expression ) , } , nil"
-def tNot := tmpl "if unary , ok := ? . ( * UnaryExpression ) ; ok && unary . Operator == UnaryOpNot { return unary . Operand , nil } return & UnaryExpression { Operator : UnaryOpNot , Operand : ? . ( Expression ) , } , nil"
-def tColl := tmpl "return & CollectionExpression { Op : ? . ( CollectionOperator ) , Selector : ? . ( Selector ) , NameBinding : ? . ( CollectionNameBinding ) , Inner : ? . ( Expression ) , } , nil"
-def tBindIV := tmpl "return CollectionNameBinding { Mode : CollectionBindIndexAndValue , Index : ? . ( string ) , Value : ? . ( string ) , } , nil"
-def tBindI := tmpl "return CollectionNameBinding { Mode : CollectionBindIndex , Index : ? . ( string ) , } , nil"
-def tBindV := tmpl "return CollectionNameBinding { Mode : CollectionBindValue , Value : ? . ( string ) , } , nil"
-def tBindD := tmpl "return CollectionNameBinding { Mode : CollectionBindDefault , Default : ? . ( string ) , } , nil"
-def tPredErr := tmpl "return false , errors . New ( ? )"
-def tMatch3 := tmpl "return & MatchExpression { Selector : ? . ( Selector ) , Operator : ? . ( MatchOperator ) , Value : ? . ( * MatchValue ) } , nil"
-def tMatch2 := tmpl "return & MatchExpression { Selector : ? . ( Selector ) , Operator : ? . ( MatchOperator ) , Value : nil } , nil"
-def tSelBexpr := tmpl "sel := Selector { Type : SelectorTypeBexpr , Path : [ ] string { ? . ( string ) } , } if ? != nil { for _ , v := range ? . ( [ ] interface { } ) { sel . Path = append ( sel . Path , v . ( string ) ) } } return sel , nil"
-def tSelPtr := tmpl "sel := Selector { Type : SelectorTypeJsonPointer , } if ? != nil { for _ , v := range ? . ( [ ] interface { } ) { sel . Path = append ( sel . Path , v . ( string ) ) } } ptrStr := fmt . Sprintf ( \"/%s\" , strings . Join ( sel . Path , \"/\" ) ) ptr , err := pointerstructure . Parse ( ptrStr ) if err != nil { return nil , fmt . Errorf ( ? , err ) } sel . Path = ptr . Parts return sel , nil"
-def tTextTail := tmpl "return string ( c . text ) [ 1 : ] , nil"
-def tTextAll := tmpl "return string ( c . text ) , nil"
-def tValSel := tmpl "return & MatchValue { Raw : ? . ( Selector ) . String ( ) } , nil"
-def tValStr := tmpl "return & MatchValue { Raw : ? . ( string ) } , nil"
-def tUnquote := tmpl "return strconv . Unquote ( string ( c . text ) )"
-def tRet := tmpl "return ? , nil"
-
-/-- a Go interpreted string literal token without escapes → its content -/
-def unquoteToken (t : String) : Option String :=
-  let cs := t.toList
-  match cs with
-  | '"' :: rest =>
-    match rest.reverse with
-    | '"' :: midRev =>
-      let mid := midRev.reverse
-      if mid.any (fun c => c == '\\' || c == '"') then none else some (String.ofList mid)
-    | _ => none
-  | _ => none
+def tBinary : List (Option String) := [
+  some "return", some "&", some "BinaryExpression", some "{", some "Operator", some ":", none, some ",",
+  some "Left", some ":", none, some ".", some "(", some "Expression", some ")", some ",", some "Right",
+  some ":", none, some ".", some "(", some "Expression", some ")", some ",", some "}", some ",", some "nil"]
+def tNot : List (Option String) := [
+  some "if", some "unary", some ",", some "ok", some ":=", none, some ".", some "(", some "*",
+  some "UnaryExpression", some ")", some ";", some "ok", some "&&", some "unary", some ".", some "Operator",
+  some "==", some "UnaryOpNot", some "{", some "return", some "unary", some ".", some "Operand", some ",",
+  some "nil", some "}", some "return", some "&", some "UnaryExpression", some "{", some "Operator", some ":",
+  some "UnaryOpNot", some ",", some "Operand", some ":", none, some ".", some "(", some "Expression",
+  some ")", some ",", some "}", some ",", some "nil"]
+def tColl : List (Option String) := [
+  some "return", some "&", some "CollectionExpression", some "{", some "Op", some ":", none, some ".",
+  some "(", some "CollectionOperator", some ")", some ",", some "Selector", some ":", none, some ".",
+  some "(", some "Selector", some ")", some ",", some "NameBinding", some ":", none, some ".", some "(",
+  some "CollectionNameBinding", some ")", some ",", some "Inner", some ":", none, some ".", some "(",
+  some "Expression", some ")", some ",", some "}", some ",", some "nil"]
+def tBindIV : List (Option String) := [
+  some "return", some "CollectionNameBinding", some "{", some "Mode", some ":",
+  some "CollectionBindIndexAndValue", some ",", some "Index", some ":", none, some ".", some "(",
+  some "string", some ")", some ",", some "Value", some ":", none, some ".", some "(", some "string",
+  some ")", some ",", some "}", some ",", some "nil"]
+def tBindI : List (Option String) := [
+  some "return", some "CollectionNameBinding", some "{", some "Mode", some ":", some "CollectionBindIndex",
+  some ",", some "Index", some ":", none, some ".", some "(", some "string", some ")", some ",", some "}",
+  some ",", some "nil"]
+def tBindV : List (Option String) := [
+  some "return", some "CollectionNameBinding", some "{", some "Mode", some ":", some "CollectionBindValue",
+  some ",", some "Value", some ":", none, some ".", some "(", some "string", some ")", some ",", some "}",
+  some ",", some "nil"]
+def tBindD : List (Option String) := [
+  some "return", some "CollectionNameBinding", some "{", some "Mode", some ":", some "CollectionBindDefault",
+  some ",", some "Default", some ":", none, some ".", some "(", some "string", some ")", some ",", some "}",
+  some ",", some "nil"]
+def tPredErr : List (Option String) := [
+  some "return", some "false", some ",", some "errors", some ".", some "New", some "(", none, some ")"]
+def tMatch3 : List (Option String) := [
+  some "return", some "&", some "MatchExpression", some "{", some "Selector", some ":", none, some ".",
+  some "(", some "Selector", some ")", some ",", some "Operator", some ":", none, some ".", some "(",
+  some "MatchOperator", some ")", some ",", some "Value", some ":", none, some ".", some "(", some "*",
+  some "MatchValue", some ")", some "}", some ",", some "nil"]
+def tMatch2 : List (Option String) := [
+  some "return", some "&", some "MatchExpression", some "{", some "Selector", some ":", none, some ".",
+  some "(", some "Selector", some ")", some ",", some "Operator", some ":", none, some ".", some "(",
+  some "MatchOperator", some ")", some ",", some "Value", some ":", some "nil", some "}", some ",", some "nil"]
+def tSelBexpr : List (Option String) := [
+  some "sel", some ":=", some "Selector", some "{", some "Type", some ":", some "SelectorTypeBexpr",
+  some ",", some "Path", some ":", some "[", some "]", some "string", some "{", none, some ".", some "(",
+  some "string", some ")", some "}", some ",", some "}", some "if", none, some "!=", some "nil", some "{",
+  some "for", some "_", some ",", some "v", some ":=", some "range", none, some ".", some "(", some "[",
+  some "]", some "interface", some "{", some "}", some ")", some "{", some "sel", some ".", some "Path",
+  some "=", some "append", some "(", some "sel", some ".", some "Path", some ",", some "v", some ".",
+  some "(", some "string", some ")", some ")", some "}", some "}", some "return", some "sel", some ",",
+  some "nil"]
+def tSelPtr : List (Option String) := [
+  some "sel", some ":=", some "Selector", some "{", some "Type", some ":", some "SelectorTypeJsonPointer",
+  some ",", some "}", some "if", none, some "!=", some "nil", some "{", some "for", some "_", some ",",
+  some "v", some ":=", some "range", none, some ".", some "(", some "[", some "]", some "interface",
+  some "{", some "}", some ")", some "{", some "sel", some ".", some "Path", some "=", some "append",
+  some "(", some "sel", some ".", some "Path", some ",", some "v", some ".", some "(", some "string",
+  some ")", some ")", some "}", some "}", some "ptrStr", some ":=", some "fmt", some ".", some "Sprintf",
+  some "(", some "\"/%s\"", some ",", some "strings", some ".", some "Join", some "(", some "sel", some ".",
+  some "Path", some ",", some "\"/\"", some ")", some ")", some "ptr", some ",", some "err", some ":=",
+  some "pointerstructure", some ".", some "Parse", some "(", some "ptrStr", some ")", some "if", some "err",
+  some "!=", some "nil", some "{", some "return", some "nil", some ",", some "fmt", some ".", some "Errorf",
+  some "(", none, some ",", some "err", some ")", some "}", some "sel", some ".", some "Path", some "=",
+  some "ptr", some ".", some "Parts", some "return", some "sel", some ",", some "nil"]
+def tTextTail : List (Option String) := [
+  some "return", some "string", some "(", some "c", some ".", some "text", some ")", some "[", some "1",
+  some ":", some "]", some ",", some "nil"]
+def tTextAll : List (Option String) := [
+  some "return", some "string", some "(", some "c", some ".", some "text", some ")", some ",", some "nil"]
+def tValSel : List (Option String) := [
+  some "return", some "&", some "MatchValue", some "{", some "Raw", some ":", none, some ".", some "(",
+  some "Selector", some ")", some ".", some "String", some "(", some ")", some "}", some ",", some "nil"]
+def tValStr : List (Option String) := [
+  some "return", some "&", some "MatchValue", some "{", some "Raw", some ":", none, some ".", some "(",
+  some "string", some ")", some "}", some ",", some "nil"]
+def tUnquote : List (Option String) := [
+  some "return", some "strconv", some ".", some "Unquote", some "(", some "string", some "(", some "c",
+  some ".", some "text", some ")", some ")"]
+def tRet : List (Option String) := [
+  some "return", none, some ",", some "nil"]
 
 def semOfBody (params : List String) (body : List String) : ActionSem :=
   let isParam (x : String) := params.contains x && !params.contains "!mismatch"
@@ -94,9 +143,7 @@ def semOfBody (params : List String) (body : List String) : ActionSem :=
   else if let some [d] := matchTemplate tBindD body then
     if isParam d then .mkBinding .default (some d) none none else .unknown
   else if let some [m] := matchTemplate tPredErr body then
-    match unquoteToken m with
-    | some msg => .predErr msg
-    | none => .unknown
+    .predErr m
   else if let some [s, o, v] := matchTemplate tMatch3 body then
     if isParam s && isParam o && isParam v then .mkMatch s o (some v) else .unknown
   else if let some [s, o] := matchTemplate tMatch2 body then
